@@ -487,3 +487,549 @@ Example snell_example :
   /\ (forall y1 y2 : R, (55 / 4 <= ttimeN ex_layers 0 [y1; y2] 10)%R)
   /\ (55 / 4 <= discrete_minN ex_layers 0 [[2; 4]; [6; 8]]%R 10)%R.
 Proof. exact snell_example_lemma. Qed.
+
+(* ==================================================================================== *)
+(* ---- the glue of arim.ray around the solver (Model/FermatGlue.v) -------------------- *)
+(* Lemmas in Proofs/FermatGlueProofs.v and Proofs/FermatGlueIndexProofs.v; all axiom-free.
+
+   Vocabulary (additional):
+     item           an element of the Python tuple FermatPath: IP points | IV velocity
+     unparse p      the tuple (P0, v0, P1, ..., Pn) of the path p;  parse = its inverse
+     fp_new         FermatPath.__new__: inl ValueError (even length or < 3),
+                    inl AssertionError (non-finite velocity), inr the tuple
+     vel_finite p   all velocities of p pass np.isfinite
+     res A = err + A   explicit exceptions
+     iterable       Reiterable l (list, tuple, set, dict view) | OneShot l (generator, iterator)
+     pathobj        (identity, (points of the interfaces, velocities of the legs)) of a Path object
+     dict_get/dict_set   Python dict keyed by FermatPath (tuple ==: Points by identity, velocities by ==)
+     last_write id ws    the attribute obj.rays after the writes ws
+     store b k      the integer k cast to a signed dtype of b bits (two's complement wrap)
+     make_indices_z b n m X   Rays.make_indices on interior layers X in that dtype
+     zray_of t i j  = t[:, i, j]
+     rays_obj       a Rays object: times, their memory order, the (d+2, n, m) index table, its
+                    memory order, its dtype, the FermatPath tuple;  wf_obj = built by Rays.__init__
+     solve_dt b     the solver with out_best_indices / expanded_indices of a b-bit dtype
+     interior_le size B p   every interior point set of p has at most B points *)
+From Arim Require Import Model.FermatGlue Proofs.FermatGlueProofs Proofs.FermatGlueIndexProofs.
+
+(* ---- FermatPath as a tuple ---- *)
+(* alternating tuples (Points, v, Points, ..., Points) are exactly the paths of the model *)
+Theorem fp_parse_unparse : forall (V PS : Type) (p : fpath V PS), parse (unparse p) = Some p.
+Proof. exact parse_unparse. Qed.
+
+Theorem fp_unparse_parse : forall (V PS : Type) (s : list (item V PS)) (p : fpath V PS),
+  parse s = Some p -> s = unparse p.
+Proof. exact unparse_parse. Qed.
+
+(* __new__: a single point set is rejected (ValueError), a non-finite velocity is rejected
+   (AssertionError), everything else with >= 1 leg is accepted unchanged *)
+Theorem fp_new_of_path : forall (V PS : Type) (v_finite : V -> bool) (p : fpath V PS),
+  fp_new v_finite (unparse p)
+  = if nlegs p =? 0 then inl ValueError
+    else if vel_finite v_finite p then inr (unparse p) else inl AssertionError.
+Proof. exact fp_new_unparse. Qed.
+
+(* FermatPath.reverse is the model's path_reverse (involutive: path_reverse_involutive above) *)
+Theorem fp_reverse_of_path : forall (V PS : Type) (v_finite : V -> bool) (p : fpath V PS),
+  1 <= nlegs p -> vel_finite v_finite p = true ->
+  fp_reverse v_finite (unparse p) = inr (unparse (path_reverse p)).
+Proof. exact fp_reverse_unparse. Qed.
+
+(* split_queue (self[:-2], self[-3:]) peels the LAST leg: exactly the constructor Leg *)
+Theorem fp_split_queue_of_path : forall (V PS : Type) (v_finite : V -> bool) (h' : fpath V PS)
+    (v' : V) (Pm : PS) (v : V) (P : PS),
+  vel_finite v_finite (Leg (Leg h' v' Pm) v P) = true ->
+  fp_split_queue v_finite (unparse (Leg (Leg h' v' Pm) v P))
+  = inr (unparse (Leg h' v' Pm), unparse (Leg (Start Pm) v P)).
+Proof. exact fp_split_queue_unparse. Qed.
+
+(* split_head (self[:3], self[2:]) peels the FIRST leg *)
+Theorem fp_split_head_of_path : forall (V PS : Type) (v_finite : V -> bool) (P0 : PS) (v : V) (q : fpath V PS),
+  1 <= nlegs q -> vel_finite v_finite (prepend P0 v q) = true ->
+  fp_split_head v_finite (unparse (prepend P0 v q))
+  = inr (unparse (Leg (Start P0) v (startp q)), unparse q).
+Proof. exact fp_split_head_unparse. Qed.
+
+(* ... and every path with >= 1 leg is of that form *)
+Theorem path_first_leg : forall (V PS : Type) (p : fpath V PS), 1 <= nlegs p ->
+  exists v : V, p = prepend (startp p) v (drop_first p).
+Proof. exact prepend_drop_first. Qed.
+
+(* both splits raise ValueError on a path with fewer than two legs *)
+Theorem fp_split_too_short : forall (V PS : Type) (v_finite : V -> bool) (p : fpath V PS),
+  nlegs p <= 1 ->
+  fp_split_queue v_finite (unparse p) = inl ValueError /\ fp_split_head v_finite (unparse p) = inl ValueError.
+Proof. exact fp_split_short. Qed.
+
+(* the properties points (self[0::2]), velocities (self[1::2]), num_points_sets (len // 2 + 1),
+   len_largest_interface (max over all_points[1:-1], 0 if none) *)
+Theorem fp_points_of_path : forall (V PS : Type) (p : fpath V PS),
+  fp_points (unparse p) = map IP (path_points p).
+Proof. exact fp_points_unparse. Qed.
+
+Theorem fp_velocities_of_path : forall (V PS : Type) (p : fpath V PS),
+  fp_velocities (unparse p) = map IV (path_velocities p).
+Proof. exact fp_velocities_unparse. Qed.
+
+Theorem fp_num_points_sets_of_path : forall (V PS : Type) (p : fpath V PS),
+  fp_num_points_sets (unparse p) = S (nlegs p).
+Proof. exact fp_num_points_sets_unparse. Qed.
+
+Theorem fp_len_largest_of_path : forall (V PS : Type) (size : PS -> nat) (p : fpath V PS),
+  fp_len_largest_interface size (unparse p)
+  = Some (fold_right Nat.max 0 (map size (removelast (tl (path_points p))))).
+Proof. exact fp_len_largest_unparse. Qed.
+
+(* from_path of a Path object (one material/mode per leg, as Path.__init__ asserts) is the tuple
+   (P0, v0, P1, ..., Pn) given to __new__ *)
+Theorem fp_from_path_of_path : forall (V PS : Type) (v_finite : V -> bool) (P0 : PS) (rest : list PS) (vs : list V),
+  length vs = length rest ->
+  fp_from_path v_finite (P0 :: rest) vs = fp_new v_finite (unparse (mk_path P0 (combine vs rest))).
+Proof. exact fp_from_path_wf. Qed.
+
+(* Path.reverse() (interfaces, materials, modes reversed; same Points objects) has the reversed
+   FermatPath: Path.reverse().to_fermat_path() == Path.to_fermat_path().reverse() *)
+Theorem fp_from_path_reversed : forall (V PS : Type) (v_finite : V -> bool) (ifs : list PS) (vs : list V)
+    (s : list (item V PS)),
+  length ifs = S (length vs) ->
+  fp_from_path v_finite ifs vs = inr s -> fp_from_path v_finite (rev ifs) (rev vs) = inr (rev s).
+Proof. exact fp_from_path_reverse. Qed.
+
+(* ---- _solve on the tuple ---- *)
+(* the recursion of FermatSolver._solve written on the Python tuple (len(path) == 3, split_queue,
+   two recursive calls, find_minimum_times, expand_rays) computes what the structural recursion
+   solve_pure computes — so every theorem above about solve_pure is about that recursion *)
+Theorem solve_on_tuple : forall (T D V PS : Type) (ltb : T -> T -> bool) (add : T -> T -> T)
+    (v_finite : V -> bool) (size : PS -> nat) (dtab : PS -> PS -> list (list D)) (divv : D -> V -> T)
+    (p : fpath V PS) (fuel : nat),
+  1 <= nlegs p -> nlegs p <= fuel -> vel_finite v_finite p = true ->
+  solve_seq ltb add v_finite size dtab divv fuel (unparse p) = solve_pure ltb add size dtab divv p.
+Proof. exact solve_seq_correct. Qed.
+
+(* ---- the solver object and its dict ---- *)
+(* FermatSolver(paths).solve() for a re-iterable `paths` (list, tuple, set in any order), with
+   duplicates and with equal tuples built separately: every path handed over is a key whose value
+   is ITS stand-alone solution, there are no other keys, no two equal keys, the caches are
+   cleared; an exception iff some stand-alone solve raises *)
+Theorem solver_object_solve : forall (T D V PS : Type) (ltb : T -> T -> bool) (add : T -> T -> T)
+    (ps_eqb : PS -> PS -> bool) (v_eqb : V -> V -> bool) (size : PS -> nat)
+    (dtab : PS -> PS -> list (list D)) (divv : D -> V -> T),
+  (forall a b : PS, ps_eqb a b = true <-> a = b) ->
+  (forall a b : V, v_eqb a b = true <-> a = b) ->
+  forall (l : list (fpath V PS)) (b : option Z),
+  match solver_solve_obj ltb add ps_eqb v_eqb size dtab divv (solver_init (Reiterable l) b) with
+  | Some (s', rs) =>
+      so_res s' = rs /\ so_paths s' = Reiterable l /\ so_state s' = ([], [])
+      /\ (forall p0 : fpath V PS, In p0 l ->
+            exists r : rays T, solve_pure ltb add size dtab divv p0 = Some r
+                               /\ dict_get ps_eqb v_eqb p0 rs = Some r)
+      /\ (forall k : fpath V PS, In k (map fst rs) -> In k l)
+      /\ NoDup (map fst rs)
+  | None => exists p : fpath V PS, In p l /\ solve_pure ltb add size dtab divv p = None
+  end.
+Proof. exact FermatGlueProofs.solver_object_solve. Qed.
+
+(* FermatSolver(iterator).solve(): __init__ exhausts the iterator while checking hashability,
+   solve() finds nothing left — an EMPTY dict, no exception (replayed on the library: {}) *)
+Theorem solver_oneshot_empty : forall (T D V PS : Type) (ltb : T -> T -> bool) (add : T -> T -> T)
+    (ps_eqb : PS -> PS -> bool) (v_eqb : V -> V -> bool) (size : PS -> nat)
+    (dtab : PS -> PS -> list (list D)) (divv : D -> V -> T) (l : list (fpath V PS)) (b : option Z),
+  solver_solve_obj ltb add ps_eqb v_eqb size dtab divv (solver_init (OneShot l) b)
+  = Some (mkSolver (OneShot []) [] ([], []) (default_bits b), []).
+Proof. exact FermatGlueProofs.solver_oneshot_empty. Qed.
+
+(* history: calling solve() again, any number of times, returns the same dict *)
+Theorem solver_solve_repeat : forall (T D V PS : Type) (ltb : T -> T -> bool) (add : T -> T -> T)
+    (ps_eqb : PS -> PS -> bool) (v_eqb : V -> V -> bool) (size : PS -> nat)
+    (dtab : PS -> PS -> list (list D)) (divv : D -> V -> T),
+  (forall a b : PS, ps_eqb a b = true <-> a = b) ->
+  (forall a b : V, v_eqb a b = true <-> a = b) ->
+  forall (l : list (fpath V PS)) (b : option Z) (s1 : solver T D V PS) (rs : list (fpath V PS * rays T)),
+  solver_solve_obj ltb add ps_eqb v_eqb size dtab divv (solver_init (Reiterable l) b) = Some (s1, rs) ->
+  forall k : nat, solver_solve_times ltb add ps_eqb v_eqb size dtab divv k s1 = Some (s1, rs).
+Proof. exact FermatGlueProofs.solver_solve_repeat. Qed.
+
+(* ---- ray_tracing_for_paths / ray_tracing ---- *)
+(* for ANY iterable of Path objects (list, tuple, set, dict view, generator, iterator), with the
+   same Path object listed several times and with distinct Path objects giving equal FermatPaths:
+   the attribute writes `path.rays = ...` are, in order, each Path object with the stand-alone
+   solution of ITS OWN FermatPath in the requested memory order; an exception iff from_path or
+   some stand-alone solve raises (never a KeyError of rays_dict[fermat_path]) *)
+Theorem ray_tracing_for_paths_spec : forall (T D V PS : Type) (ltb : T -> T -> bool) (add : T -> T -> T)
+    (ps_eqb : PS -> PS -> bool) (v_eqb : V -> V -> bool) (v_finite : V -> bool) (size : PS -> nat)
+    (dtab : PS -> PS -> list (list D)) (divv : D -> V -> T),
+  (forall a b : PS, ps_eqb a b = true <-> a = b) ->
+  (forall a b : V, v_eqb a b = true <-> a = b) ->
+  forall (it : iterable (pathobj V PS)) (fortran : bool),
+  ray_tracing_for_paths ltb add ps_eqb v_eqb v_finite size dtab divv it fortran
+  = match all_some (map (to_fermat v_finite) (fst (iterate it))) with
+    | Some fps =>
+        match all_some (map (solve_pure ltb add size dtab divv) fps) with
+        | Some rl => Some (combine (map fst (fst (iterate it))) (map (fun r : rays T => (r, fortran)) rl))
+        | None => None
+        end
+    | None => None
+    end.
+Proof. exact FermatGlueProofs.ray_tracing_for_paths_spec. Qed.
+
+(* a one-shot iterable is consumed exactly once: same writes as for the list of its items *)
+Theorem ray_tracing_for_paths_oneshot : forall (T D V PS : Type) (ltb : T -> T -> bool) (add : T -> T -> T)
+    (ps_eqb : PS -> PS -> bool) (v_eqb : V -> V -> bool) (v_finite : V -> bool) (size : PS -> nat)
+    (dtab : PS -> PS -> list (list D)) (divv : D -> V -> T),
+  (forall a b : PS, ps_eqb a b = true <-> a = b) ->
+  (forall a b : V, v_eqb a b = true <-> a = b) ->
+  forall (l : list (pathobj V PS)) (fortran : bool),
+  ray_tracing_for_paths ltb add ps_eqb v_eqb v_finite size dtab divv (OneShot l) fortran
+  = ray_tracing_for_paths ltb add ps_eqb v_eqb v_finite size dtab divv (Reiterable l) fortran.
+Proof. exact FermatGlueProofs.ray_tracing_for_paths_oneshot. Qed.
+
+(* after the call EVERY Path object of the group holds the rays of its own FermatPath
+   (hypothesis: an identity denotes one object) *)
+Theorem path_rays_attr : forall (T D V PS : Type) (ltb : T -> T -> bool) (add : T -> T -> T)
+    (ps_eqb : PS -> PS -> bool) (v_eqb : V -> V -> bool) (v_finite : V -> bool) (size : PS -> nat)
+    (dtab : PS -> PS -> list (list D)) (divv : D -> V -> T),
+  (forall a b : PS, ps_eqb a b = true <-> a = b) ->
+  (forall a b : V, v_eqb a b = true <-> a = b) ->
+  forall (it : iterable (pathobj V PS)) (fortran : bool) (ws : list (Z * (rays T * bool))),
+  (forall o o' : pathobj V PS, In o (fst (iterate it)) -> In o' (fst (iterate it)) -> fst o = fst o' -> o = o') ->
+  ray_tracing_for_paths ltb add ps_eqb v_eqb v_finite size dtab divv it fortran = Some ws ->
+  forall o : pathobj V PS, In o (fst (iterate it)) ->
+  exists (fp : fpath V PS) (r : rays T),
+    to_fermat v_finite o = Some fp /\ solve_pure ltb add size dtab divv fp = Some r
+    /\ last_write (fst o) ws = Some (r, fortran).
+Proof. exact FermatGlueProofs.path_rays_attr. Qed.
+
+(* ray_tracing(views) = ray_tracing_for_paths(list(set of the tx and rx Path objects)) ... *)
+Theorem ray_tracing_is_for_paths : forall (T D V PS : Type) (ltb : T -> T -> bool) (add : T -> T -> T)
+    (ps_eqb : PS -> PS -> bool) (v_eqb : V -> V -> bool) (v_finite : V -> bool) (size : PS -> nat)
+    (dtab : PS -> PS -> list (list D)) (divv : D -> V -> T)
+    (enum : list (pathobj V PS) -> list (pathobj V PS)) (views : list (pathobj V PS * pathobj V PS))
+    (fortran : bool),
+  ray_tracing ltb add ps_eqb v_eqb v_finite size dtab divv enum views fortran
+  = ray_tracing_for_paths ltb add ps_eqb v_eqb v_finite size dtab divv
+      (Reiterable (enum (map fst views ++ map snd views))) fortran.
+Proof. exact FermatGlueProofs.ray_tracing_is_for_paths. Qed.
+
+(* ... and whatever the iteration order `enum` of that set (any enumeration with the same
+   elements; de-duplication is by identity), every tx path and every rx path of every view ends
+   with the rays of its own FermatPath *)
+Theorem ray_tracing_views : forall (T D V PS : Type) (ltb : T -> T -> bool) (add : T -> T -> T)
+    (ps_eqb : PS -> PS -> bool) (v_eqb : V -> V -> bool) (v_finite : V -> bool) (size : PS -> nat)
+    (dtab : PS -> PS -> list (list D)) (divv : D -> V -> T),
+  (forall a b : PS, ps_eqb a b = true <-> a = b) ->
+  (forall a b : V, v_eqb a b = true <-> a = b) ->
+  forall (enum : list (pathobj V PS) -> list (pathobj V PS)) (views : list (pathobj V PS * pathobj V PS))
+         (fortran : bool) (ws : list (Z * (rays T * bool))),
+  let src := map fst views ++ map snd views in
+  (forall o : pathobj V PS, In o (enum src) <-> In o src) ->
+  (forall o o' : pathobj V PS, In o src -> In o' src -> fst o = fst o' -> o = o') ->
+  ray_tracing ltb add ps_eqb v_eqb v_finite size dtab divv enum views fortran = Some ws ->
+  forall v : pathobj V PS * pathobj V PS, In v views ->
+  (exists (fp : fpath V PS) (r : rays T),
+     to_fermat v_finite (fst v) = Some fp /\ solve_pure ltb add size dtab divv fp = Some r
+     /\ last_write (fst (fst v)) ws = Some (r, fortran))
+  /\ (exists (fp : fpath V PS) (r : rays T),
+        to_fermat v_finite (snd v) = Some fp /\ solve_pure ltb add size dtab divv fp = Some r
+        /\ last_write (fst (snd v)) ws = Some (r, fortran)).
+Proof. exact FermatGlueProofs.ray_tracing_views. Qed.
+
+(* the first-occurrence order is such an enumeration (the hypothesis above is satisfiable) *)
+Theorem set_enumeration_exists : forall (V PS : Type) (l : list (pathobj V PS)),
+  (forall o o' : pathobj V PS, In o l -> In o' l -> fst o = fst o' -> o = o') ->
+  (forall o : pathobj V PS, In o (dedup_ids [] l) <-> In o l) /\ NoDup (map fst (dedup_ids [] l)).
+Proof. exact dedup_ids_enum. Qed.
+
+(* ---- Rays.make_indices: values, dtype, memory order ---- *)
+(* the cast to a signed dtype of b bits is exact iff the index is below 2^(b-1) ... *)
+Theorem index_cast_exact_iff : forall (b : Z) (k : nat), (1 <= b)%Z ->
+  (store b k = Z.of_nat k <-> (Z.of_nat k < 2 ^ (b - 1))%Z).
+Proof. exact store_exact_iff. Qed.
+
+(* ... and an index in [2^(b-1), 2^b) is stored as a NEGATIVE number *)
+Theorem index_cast_wraps : forall (b : Z) (k : nat), (1 <= b)%Z -> (2 ^ (b - 1) <= Z.of_nat k < 2 ^ b)%Z ->
+  (store b k = Z.of_nat k - 2 ^ b /\ store b k < 0)%Z.
+Proof. exact store_wraps. Qed.
+
+(* indices[:, i, j] = (i, interior_indices[:, i, j], j) in the dtype *)
+Theorem make_indices_column : forall (b : Z) (n m : nat) (X : list (list (list Z))) (i j : nat),
+  i < n -> j < m ->
+  zray_of (make_indices_z b n m X) i j
+  = store b i :: map (fun lay => nth j (nth i lay []) (-1)%Z) X ++ [store b j].
+Proof. exact zray_of_make_indices. Qed.
+
+(* layer 0 holds i, the last layer holds j, layers 1..d are the interior layers, d + 2 layers *)
+Theorem make_indices_layout : forall (b : Z) (n m : nat) (X : list (list (list Z))),
+  nth 0 (make_indices_z b n m X) [] = tab n m (fun i _ => store b i)
+  /\ last (make_indices_z b n m X) [] = tab n m (fun _ j => store b j)
+  /\ (forall k, k < length X -> nth (S k) (make_indices_z b n m X) [] = nth k X [])
+  /\ length (make_indices_z b n m X) = length X + 2.
+Proof. exact FermatGlueIndexProofs.make_indices_layout. Qed.
+
+(* overflow condition of the two end rows: indices[0] = i and indices[-1] = j hold for all rays
+   EXACTLY when the first set (resp. the last set) has at most 2^(b-1) points *)
+Theorem make_indices_exact_iff : forall (b : Z) (n m : nat) (X : list (list (list Z))), (1 <= b)%Z ->
+  ((forall i j, i < n -> j < m ->
+      hd 0%Z (zray_of (make_indices_z b n m X) i j) = Z.of_nat i
+      /\ last (zray_of (make_indices_z b n m X) i j) 0%Z = Z.of_nat j)
+   <-> ((m = 0 \/ (Z.of_nat n <= 2 ^ (b - 1))%Z) /\ (n = 0 \/ (Z.of_nat m <= 2 ^ (b - 1))%Z))).
+Proof. exact FermatGlueIndexProofs.make_indices_exact_iff. Qed.
+
+(* the property interior_indices (indices[1:-1]) gives back what __init__ was given *)
+Theorem interior_indices_roundtrip : forall (b : Z) (n m : nat) (X : list (list (list Z))),
+  interior_of (make_indices_z b n m X) = X.
+Proof. exact interior_of_make_indices. Qed.
+
+(* Rays.reverse acts on the WHOLE index table as y[d+1-k, j, i] = x[k, i, j] — the first and last
+   rows included (they are rebuilt by make_indices, not copied) *)
+Theorem make_indices_reverse : forall (b : Z) (n m : nat) (X : list (list (list Z))),
+  make_indices_z b m n (rev (map (transpose m) X)) = rev (map (transpose m) (make_indices_z b n m X)).
+Proof. exact FermatGlueIndexProofs.make_indices_reverse. Qed.
+
+(* memory order of the index table: an explicit `order` wins; with order=None it is Fortran only
+   for a Fortran-allocated interior block that is not degenerate (no zero-length axis and at
+   least two axes longer than 1) *)
+Theorem make_indices_order_explicit : forall (o lay : order) (sh : list nat),
+  make_indices_order (Some o) lay sh = o.
+Proof. exact FermatGlueIndexProofs.make_indices_order_explicit. Qed.
+
+Theorem make_indices_order_default : forall (lay : order) (sh : list nat),
+  make_indices_order None lay sh = if order_eqb lay OC || degenerate sh then OC else OF.
+Proof. exact FermatGlueIndexProofs.make_indices_order_default. Qed.
+
+(* ---- the Rays object: __init__, to_fortran_order, reverse ---- *)
+(* when the assertions of Rays.__init__ pass, the object is as described (wf_obj) *)
+Theorem rays_init_ok : forall (T V PS : Type) (size : PS -> nat) (tshape : nat * nat) (times : list (list T))
+    (tlay : order) (n m : nat) (X : list (list (list Z))) (ilay : order) (b : Z) (fp : list (item V PS))
+    (oarg : option order) (r : rays_obj T V PS),
+  rays_init size tshape times tlay (length X, (n, m)) X ilay b fp oarg = inr r ->
+  wf_obj T V PS size r /\ ro_shape r = (n, m) /\ ro_times r = times /\ ro_tlay r = tlay
+  /\ ro_bits r = b /\ ro_path r = fp /\ ro_order r = make_indices_order oarg ilay [length X; n; m].
+Proof. exact rays_init_wf. Qed.
+
+(* to_fortran_order: same values, times and indices both in Fortran order, whatever the shape *)
+Theorem rays_to_fortran_order : forall (T V PS : Type) (size : PS -> nat) (r : rays_obj T V PS),
+  wf_obj T V PS size r ->
+  rays_obj_to_fortran size r
+  = inr (mkRaysObj (ro_shape r) (ro_times r) OF (ro_indices r) OF (ro_bits r) (ro_path r)).
+Proof. exact rays_obj_to_fortran_spec. Qed.
+
+(* Rays.reverse(order): transposed times in the requested order, the whole index table flipped and
+   transposed, the reversed FermatPath; the index table gets the requested order only when the
+   interior block is not degenerate *)
+Theorem rays_reverse_object : forall (T V PS : Type) (v_finite : V -> bool) (size : PS -> nat) (ord : order)
+    (r : rays_obj T V PS) (p : fpath V PS),
+  wf_obj T V PS size r -> ro_path r = unparse p -> 1 <= nlegs p -> vel_finite v_finite p = true ->
+  let n := size (startp p) in
+  let m := size (endp p) in
+  rays_obj_reverse v_finite size ord r
+  = inr (mkRaysObj (m, n) (transpose m (ro_times r)) ord (rev (map (transpose m) (ro_indices r)))
+                   (if order_eqb ord OC || degenerate [ro_d r; m; n] then OC else OF)
+                   (ro_bits r) (unparse (path_reverse p))).
+Proof. exact rays_obj_reverse_spec. Qed.
+
+(* consequence (replayed on the library): for a path with two interfaces Rays.reverse() returns
+   Fortran-ordered times but a C-ordered index table *)
+Theorem rays_reverse_two_interfaces_mixed_order : forall (T V PS : Type) (v_finite : V -> bool) (size : PS -> nat)
+    (r : rays_obj T V PS) (P0 : PS) (v : V) (P : PS),
+  wf_obj T V PS size r -> ro_path r = unparse (Leg (Start P0) v P) -> v_finite v = true ->
+  exists r' : rays_obj T V PS,
+    rays_obj_reverse v_finite size OF r = inr r' /\ ro_tlay r' = OF /\ ro_order r' = OC.
+Proof. exact rays_obj_reverse_two_interfaces. Qed.
+
+(* get_coordinates: fancy indexing by a layer of in-range indices is the table of the points *)
+Theorem get_coordinates_in_range : forall (A : Type) (coords : list A) (d : A) (n m : nat) (f : nat -> nat -> nat),
+  (forall i j : nat, i < n -> j < m -> f i j < length coords) ->
+  get_coordinates coords (tab n m (fun i j : nat => Z.of_nat (f i j)))
+  = Some (tab n m (fun i j : nat => nth (f i j) coords d)).
+Proof. exact @get_coordinates_tab. Qed.
+
+(* gone_through_extreme_points: ray (i, j) is flagged iff at some interior interface its index is
+   0 or len(points) - 1 *)
+Theorem gone_through_extreme_points_spec : forall (n m : nat) (sizes : list nat) (fs : list (nat -> nat -> Z)),
+  gone_through_extreme_points n m sizes (map (tab n m) fs)
+  = tab n m (fun i j : nat =>
+       existsb (fun sf : nat * (nat -> nat -> Z) =>
+                  (snd sf i j =? 0)%Z || (snd sf i j =? Z.of_nat (fst sf) - 1)%Z) (combine sizes fs)).
+Proof. exact gone_through_extreme_points_tab. Qed.
+
+(* ---- the solver's index tables ---- *)
+(* every interior layer of an answer has the shape (n, p) of the time table ... *)
+Theorem solve_interior_shapes : forall (T D V PS : Type) (leb ltb : T -> T -> bool) (add : T -> T -> T)
+    (size : PS -> nat) (dtab : PS -> PS -> list (list D)) (divv : D -> V -> T)
+    (wf : PS -> V -> PS -> nat -> nat -> T),
+  total_preorder leb ltb -> leg_model size dtab divv wf ->
+  forall (p : fpath V PS) (r : rays T),
+  interior_ok size p -> solve_pure ltb add size dtab divv p = Some r ->
+  forall lay : list (list nat), In lay (r_int r) ->
+  length lay = size (startp p) /\ (forall row : list nat, In row lay -> length row = size (endp p)).
+Proof. exact solve_int_shapes. Qed.
+
+(* ... and layer k only holds valid indices of the (k+1)-th point set of the path *)
+Theorem solve_indices_in_range : forall (T D V PS : Type) (leb ltb : T -> T -> bool) (add : T -> T -> T)
+    (size : PS -> nat) (dtab : PS -> PS -> list (list D)) (divv : D -> V -> T)
+    (wf : PS -> V -> PS -> nat -> nat -> T),
+  total_preorder leb ltb -> leg_model size dtab divv wf ->
+  forall (p : fpath V PS) (r : rays T),
+  interior_ok size p -> solve_pure ltb add size dtab divv p = Some r ->
+  Forall2 (fun (lay : list (list nat)) (Pk : PS) =>
+             forall i j : nat, i < size (startp p) -> j < size (endp p) -> nth j (nth i lay []) 0 < size Pk)
+          (r_int r) (removelast (tl (path_points p))).
+Proof. exact FermatGlueIndexProofs.solve_indices_in_range. Qed.
+
+(* Rays.indices[:, i, j] of the object built from an answer is the ray of solve_realised, cast *)
+Theorem indices_column_is_ray : forall (T D V PS : Type) (leb ltb : T -> T -> bool) (add : T -> T -> T)
+    (size : PS -> nat) (dtab : PS -> PS -> list (list D)) (divv : D -> V -> T)
+    (wf : PS -> V -> PS -> nat -> nat -> T),
+  total_preorder leb ltb -> leg_model size dtab divv wf ->
+  forall (b : Z) (p : fpath V PS) (r : rays T) (i j : nat),
+  interior_ok size p -> solve_pure ltb add size dtab divv p = Some r ->
+  i < size (startp p) -> j < size (endp p) ->
+  zray_of (make_indices_z b (size (startp p)) (size (endp p)) (interior_z b r)) i j
+  = map (store b) (ray_of r i j).
+Proof. exact zray_of_solve. Qed.
+
+(* ---- the solver in the index dtype (dtype_indices; default settings.INT = 32 bits) ---- *)
+(* if no interior point set has more than 2^(b-1) points, the solver whose index arrays have b bits
+   (stored minimiser cast, _expand_rays indexing with the stored value) returns exactly the times
+   and, as integers, the indices of the unbounded model — all theorems above apply to it *)
+Theorem solve_dtype_exact : forall (T D V PS : Type) (leb ltb : T -> T -> bool) (add : T -> T -> T)
+    (size : PS -> nat) (dtab : PS -> PS -> list (list D)) (divv : D -> V -> T)
+    (wf : PS -> V -> PS -> nat -> nat -> T),
+  total_preorder leb ltb -> leg_model size dtab divv wf ->
+  forall (b : Z) (p : fpath V PS), (1 <= b)%Z ->
+  interior_ok size p -> interior_le size (Z.to_nat (2 ^ (b - 1))) p ->
+  solve_dt ltb add size dtab divv b p
+  = option_map (fun r : rays T => (r_times r, map (map (map Z.of_nat)) (r_int r)))
+               (solve_pure ltb add size dtab divv p).
+Proof. exact solve_dt_exact. Qed.
+
+(* the hypothesis is what FermatPath.len_largest_interface measures *)
+Theorem interior_le_is_len_largest : forall (V PS : Type) (size : PS -> nat) (bound : nat) (p : fpath V PS),
+  1 <= nlegs p ->
+  (interior_le size bound p
+   <-> exists L : nat, fp_len_largest_interface size (unparse p) = Some L /\ L <= bound).
+Proof. exact interior_le_largest. Qed.
+
+(* the bound is sharp: with 8-bit indices an interior set of 2^7 + 1 = 129 points whose last
+   point is the fastest gives the stored index -128 instead of 128 (the full statement
+   "solve_dt b = solve_pure for every path" is false) *)
+Theorem solve_dtype_exact_bound_sharp_refuted :
+  exists (p : fpath unit nat),
+    interior_le (fun n : nat => n) 129 p
+    /\ option_map (fun r => r_int r) (solve_pure Z.ltb Z.add (fun n => n) ovf_dtab (fun d _ => d) p)
+       = Some [[[128]]]
+    /\ option_map snd (solve_dt Z.ltb Z.add (fun n => n) ovf_dtab (fun d _ => d) 8 p)
+       = Some [[[(-128)%Z]]].
+Proof. exact (ex_intro _ ovf_path solve_dt_overflow_example). Qed.
+
+(* ---- non-vacuity of the glue theorems (the 2 x 3 x 2 cloud over Q of the examples above) ---- *)
+Definition qfin (_ : Q) : bool := true.
+Definition expath_rev : cpath := path_reverse expath.
+
+(* the tuple of expath; parse is its inverse; split_queue / split_head / reverse; a single point
+   set and an even-length tuple are rejected *)
+Example tuple_example :
+  unparse expath = [IP exP0; IV (1#1)%Q; IP exP1; IV (2#1)%Q; IP exP2]
+  /\ parse (unparse expath) = Some expath
+  /\ fp_split_queue qfin (unparse expath) = inr ([IP exP0; IV (1#1)%Q; IP exP1], [IP exP1; IV (2#1)%Q; IP exP2])
+  /\ fp_split_head qfin (unparse expath) = inr ([IP exP0; IV (1#1)%Q; IP exP1], [IP exP1; IV (2#1)%Q; IP exP2])
+  /\ fp_reverse qfin (unparse expath) = inr [IP exP2; IV (2#1)%Q; IP exP1; IV (1#1)%Q; IP exP0]
+  /\ fp_new qfin [IP exP0] = inl ValueError
+  /\ fp_new qfin [IP exP0; IV (1#1)%Q] = inl ValueError
+  /\ fp_split_queue qfin [IP exP0; IV (1#1)%Q; IP exP1] = inl ValueError
+  /\ fp_from_path qfin [exP0; exP1; exP2] [(1#1)%Q; (2#1)%Q] = inr (unparse expath)
+  /\ fp_from_path qfin [exP0] [(1#1)%Q] = inr [IP exP0; IV (1#1)%Q; IP exP0]
+  /\ fp_from_path qfin [exP0] [] = inl ValueError
+  /\ fp_num_points_sets (unparse expath) = 3
+  /\ fp_len_largest_interface psize (unparse expath) = Some 3
+  /\ vel_finite qfin expath = true /\ nlegs expath = 2.
+Proof. repeat split; vm_compute; reflexivity. Qed.
+
+(* _solve on the tuple gives the answer of solve_example *)
+Example solve_on_tuple_example :
+  solve_seq (nltb NumQ) (nadd NumQ) qfin psize (distance_pairwise NumQ) (ndiv NumQ) 2 (unparse expath)
+  = Some (mkRays [[6#1; 13#2]; [13#2; 6#1]]%Q [[[0; 0]; [1; 1]]]).
+Proof. vm_compute. reflexivity. Qed.
+
+(* a generator of four Path objects: object 1 twice, object 2 equal to object 1 but distinct,
+   object 3 the reversed path; every object ends with its own rays; Fortran order flagged *)
+Definition exobj (id : Z) : pathobj Q pset := (id, ([exP0; exP1; exP2], [(1#1)%Q; (2#1)%Q])).
+Definition exobj_rev (id : Z) : pathobj Q pset := (id, ([exP2; exP1; exP0], [(2#1)%Q; (1#1)%Q])).
+Definition ex_rt (it : iterable (pathobj Q pset)) (fortran : bool) :=
+  ray_tracing_for_paths (nltb NumQ) (nadd NumQ) pset_eqb (neqb NumQ) qfin psize
+                        (distance_pairwise NumQ) (ndiv NumQ) it fortran.
+
+Example ray_tracing_for_paths_example :
+  option_map (map (fun w => (fst w, r_times (fst (snd w)), r_int (fst (snd w)), snd (snd w))))
+             (ex_rt (OneShot [exobj 1; exobj 2; exobj 1; exobj_rev 3]) true)
+  = Some [(1%Z, [[6#1; 13#2]; [13#2; 6#1]]%Q, [[[0; 0]; [1; 1]]], true);
+          (2%Z, [[6#1; 13#2]; [13#2; 6#1]]%Q, [[[0; 0]; [1; 1]]], true);
+          (1%Z, [[6#1; 13#2]; [13#2; 6#1]]%Q, [[[0; 0]; [1; 1]]], true);
+          (3%Z, [[6#1; 13#2]; [13#2; 6#1]]%Q, [[[0; 1]; [0; 1]]], true)]
+  /\ ex_rt (OneShot [exobj 1; exobj 2; exobj 1; exobj_rev 3]) true
+     = ex_rt (Reiterable [exobj 1; exobj 2; exobj 1; exobj_rev 3]) true
+  /\ option_map (fun ws => option_map (fun x => r_times (fst x)) (last_write 2%Z ws))
+                (ex_rt (Reiterable [exobj 1; exobj 2]) false)
+     = Some (Some [[6#1; 13#2]; [13#2; 6#1]]%Q)
+  /\ ex_rt (Reiterable []) false = Some []
+  /\ ex_rt (Reiterable [(7%Z, ([exP0], []))]) false = None.
+Proof. repeat split; vm_compute; reflexivity. Qed.
+
+(* the solver object: three paths of which two are equal give a dict with two keys; an iterator
+   gives the empty dict *)
+Example solver_object_example :
+  option_map (fun sr => map (fun kv => r_times (snd kv)) (snd sr))
+    (solver_solve_obj (nltb NumQ) (nadd NumQ) pset_eqb (neqb NumQ) psize (distance_pairwise NumQ) (ndiv NumQ)
+       (solver_init (Reiterable [expath; expath_rev; expath]) None))
+  = Some [[[6#1; 13#2]; [13#2; 6#1]]; [[6#1; 13#2]; [13#2; 6#1]]]%Q
+  /\ option_map snd
+       (solver_solve_obj (nltb NumQ) (nadd NumQ) pset_eqb (neqb NumQ) psize (distance_pairwise NumQ) (ndiv NumQ)
+          (solver_init (OneShot [expath; expath_rev; expath]) None))
+     = Some [].
+Proof. split; vm_compute; reflexivity. Qed.
+
+(* make_indices with 8-bit indices: a (1, 2, 2) interior block; index 150 is stored as -106 and
+   200 rows overflow the first row from row 128 on (replayed on the library with np.int8) *)
+Example make_indices_example :
+  make_indices_z 8 2 2 [[[0; 0]; [1; 1]]%Z] = [[[0; 0]; [1; 1]]; [[0; 0]; [1; 1]]; [[0; 1]; [0; 1]]]%Z
+  /\ store 8 150 = (-106)%Z /\ store 8 127 = 127%Z /\ store 8 128 = (-128)%Z /\ store 32 150 = 150%Z
+  /\ zray_of (make_indices_z 8 200 1 []) 130 0 = [(-126)%Z; 0%Z]
+  /\ make_indices_order None OF [1; 2; 2] = OF /\ make_indices_order None OF [0; 2; 3] = OC
+  /\ make_indices_order None OF [1; 1; 3] = OC /\ make_indices_order None OC [2; 2; 2] = OC
+  /\ make_indices_order (Some OF) OC [0; 2; 3] = OF.
+Proof. repeat split; vm_compute; reflexivity. Qed.
+
+(* the Rays object of solve_example, its reverse and its Fortran copy; assertion failures *)
+Definition exrays : res (rays_obj Q Q pset) :=
+  rays_init psize (2, 2) [[6#1; 13#2]; [13#2; 6#1]]%Q OC (1, (2, 2)) [[[0; 0]; [1; 1]]%Z] OC 32
+            (unparse expath) None.
+
+Example rays_object_example :
+  (exists r, exrays = inr r /\ ro_order r = OC
+     /\ ro_indices r = [[[0; 0]; [1; 1]]; [[0; 0]; [1; 1]]; [[0; 1]; [0; 1]]]%Z
+     /\ (exists r', rays_obj_reverse qfin psize OF r = inr r' /\ ro_order r' = OF /\ ro_tlay r' = OF
+           /\ ro_indices r' = [[[0; 0]; [1; 1]]; [[0; 1]; [0; 1]]; [[0; 1]; [0; 1]]]%Z
+           /\ ro_path r' = unparse expath_rev)
+     /\ (exists r', rays_obj_to_fortran psize r = inr r' /\ ro_order r' = OF /\ ro_indices r' = ro_indices r))
+  /\ rays_init psize (2, 2) [[6#1; 13#2]; [13#2; 6#1]]%Q OC (1, (2, 3)) [] OC 32 (unparse expath) None
+     = inl AssertionError
+  /\ rays_init psize (2, 2) [[6#1; 13#2]; [13#2; 6#1]]%Q OC (0, (2, 2)) [] OC 32 (unparse expath) None
+     = inl AssertionError
+  /\ make_rays_two_interfaces psize (2, 2) [[6#1; 13#2]; [13#2; 6#1]]%Q OC 32 (unparse expath)
+     = inl ValueError.
+Proof.
+  split; [|repeat split; vm_compute; reflexivity].
+  eexists. split; [vm_compute; reflexivity|]. split; [reflexivity|]. split; [reflexivity|]. split.
+  - eexists. split; [vm_compute; reflexivity|]. repeat split; vm_compute; reflexivity.
+  - eexists. split; [vm_compute; reflexivity|]. repeat split; vm_compute; reflexivity.
+Qed.
+
+(* get_coordinates (x of exP1 = 0, 3, 0) and gone_through_extreme_points (3 points: 0 and 2 are
+   extreme) on the interior layer [[0, 0], [1, 1]] of solve_example; a negative index counts from
+   the end, an out-of-range index raises *)
+Example coordinates_example :
+  get_coordinates [0; 3; 0]%Z [[0; 0]; [1; 1]]%Z = Some [[0; 0]; [3; 3]]%Z
+  /\ get_coordinates [0; 3; 7]%Z [[(-1); 0]]%Z = Some [[7; 0]]%Z
+  /\ get_coordinates [0; 3; 7]%Z [[3; 0]]%Z = None
+  /\ gone_through_extreme_points 2 2 [3] [[[0; 0]; [1; 1]]%Z] = [[true; true]; [false; false]].
+Proof. repeat split; vm_compute; reflexivity. Qed.
